@@ -35,7 +35,7 @@ Definition in_wait (p : cv_pc) : bool :=
   match p with CPreSusp | CSusp | CSleep | CRelockI | CCheck => true | _ => false end.
 Definition is_nres (p : cv_pc) : bool := match p with NRes _ _ _ => true | _ => false end.
 Definition is_pred_op (o : cv_op) : bool :=
-  match o with CWaitPred | CWaitForPred | CWaitStop => true | _ => false end.
+  match o with CWaitPred | CWaitForPred | CWaitStop | CWaitStopFor => true | _ => false end.
 (* program counters at which the caller of a public wait still holds U *)
 Definition needs_u (p : cv_pc) (o : cv_op) : bool :=
   match p with
